@@ -23,6 +23,7 @@ type exSpec struct {
 }
 
 type c01Exchange struct {
+	sameName *gc.Pkg
 	bodies []*exSpec
 	resp   *exSpec
 }
@@ -87,6 +88,11 @@ func c01BuildExchange(r *lp.Run, rng *lp.Rand, mod *gc.Module) *c01Exchange {
 		}
 		ex.bodies = append(ex.bodies, &exSpec{pkg: pkg, g: g, ops: b.ops})
 	}
+	if sp, err := mod.Add("xsn", []byte(sameNameDoc), gen.Options{}); err != nil {
+		r.Fail(lp.PropFail{Property: "C01", What: "the generator refuses the same-name parameter spec", Input: sameNameDoc, Observed: err.Error(), Expected: "generated package"})
+	} else {
+		ex.sameName = sp
+	}
 	pkg, err := mod.Add("xr", []byte(respMatrixDoc), gen.Options{})
 	if err != nil {
 		r.Fail(lp.PropFail{Property: "C01", What: "the generator refuses the response feature-matrix spec", Input: respMatrixDoc, Observed: err.Error(), Expected: "generated package"})
@@ -109,6 +115,9 @@ func c01RunExchange(r *lp.Run, rng *lp.Rand, drv *gc.Driver, ex *c01Exchange) {
 			}
 			c01BodyOp(r, drv, b, oi, op)
 		}
+	}
+	if ex.sameName != nil {
+		c01SameNames(r, drv, ex.sameName)
 	}
 	if ex.resp != nil {
 		c01Responses(r, rng, drv, ex.resp)
@@ -427,6 +436,59 @@ func c01BodyDefaults(r *lp.Run, drv *gc.Driver, x *exSpec) {
 			if !strings.Contains(got, exp) {
 				r.Fail(lp.PropFail{Property: "C01", What: "an absent member with a schema default does not arrive as that default (or a supplied member is changed)", Input: in, Observed: got, Expected: "… " + exp + " …"})
 				break
+			}
+		}
+	}
+}
+
+// ---- parameters that share a name across locations, several parameters per operation ----
+
+const sameNameDoc = `{"openapi":"3.0.3","info":{"title":"t","version":"1"},"paths":{
+ "/sn/{id}":{"get":{"operationId":"sameName","parameters":[
+   {"name":"id","in":"path","required":true,"schema":{"type":"string"}},
+   {"name":"id","in":"query","required":true,"schema":{"type":"string"}},
+   {"name":"id","in":"header","required":true,"schema":{"type":"string"}},
+   {"name":"id","in":"cookie","required":true,"schema":{"type":"string"}}],
+   "responses":{"200":{"description":"ok"}}}},
+ "/sn2/{a}/{b}":{"get":{"operationId":"sameName2","parameters":[
+   {"name":"b","in":"header","required":true,"schema":{"type":"integer"}},
+   {"name":"a","in":"query","schema":{"type":"integer"}},
+   {"name":"a","in":"path","required":true,"schema":{"type":"integer"}},
+   {"name":"b","in":"path","required":true,"schema":{"type":"integer"}},
+   {"name":"a","in":"cookie","schema":{"type":"integer"}}],
+   "responses":{"200":{"description":"ok"}}}},
+ "/sn3/{x}":{"parameters":[{"name":"x","in":"header","required":true,"schema":{"type":"string"}},{"name":"x","in":"path","required":true,"schema":{"type":"string"}}],
+   "get":{"operationId":"sameName3","parameters":[{"name":"x","in":"query","required":true,"schema":{"type":"string"}}],"responses":{"200":{"description":"ok"}}}}
+}}`
+
+func c01SameNames(r *lp.Run, drv *gc.Driver, pkg *gc.Pkg) {
+	for _, oi := range pkg.Ops {
+		// a distinct value per parameter, typed by the field's declared schema (integers for sameName2)
+		for round := 0; round < 3; round++ {
+			params := map[string]any{}
+			for k, p := range oi.Params {
+				if oi.OperationID == "sameName2" {
+					params[p.Field] = json.Number(fmt.Sprint(100*(round+1) + k))
+				} else {
+					params[p.Field] = fmt.Sprintf("%s-%s-%d", p.In, p.Name, round)
+				}
+			}
+			ans, _ := drv.Do(map[string]any{"pkg": pkg.Name, "cmd": "call", "op": oi.Name, "params": params})
+			in := map[string]any{"operation": oi.OperationID, "parameters": oi.Params, "values": params}
+			r.Count("c01 samename "+oi.OperationID+fmt.Sprint(round), "same-name-parameters", true)
+			r.PropCheck()
+			if ans["error"] != nil || ans["crash"] != nil || ans["driver_panic"] != nil {
+				r.Fail(lp.PropFail{Property: "C01", What: "driver failure", Input: in, Observed: fmt.Sprint(ans["error"], ans["crash"], ans["driver_panic"]), Expected: "a call"})
+				continue
+			}
+			given, _ := ans["given"].(map[string]any)
+			srv, _ := ans["server"].(map[string]any)
+			if srv == nil || fmt.Sprint(srv["handler_called"]) == "0" {
+				r.Fail(lp.PropFail{Property: "C01", What: "a call with same-named parameters in different locations does not reach the handler", Input: in, Observed: fmt.Sprint(ans["status"], " ", ans["client"], " ", ans["wire"]), Expected: "handler invoked"})
+				continue
+			}
+			if fmt.Sprint(srv["params"]) != fmt.Sprint(given["params"]) {
+				r.Fail(lp.PropFail{Property: "C01", What: "with same-named parameters in different locations the handler receives other values than the caller supplied", Input: in, Observed: fmt.Sprint(srv["params"]), Expected: fmt.Sprint(given["params"])})
 			}
 		}
 	}
